@@ -3,6 +3,7 @@ from props import brokerprops as B
 from common import unjbytes as common_unj
 
 LEVEL = 'proof'
+TRUSTED_EXTRA = ['harness/pytrans3.py: fail-closed translator of Server.subscribe/unsubscribe/publish (hpfeeds/broker/server.py) and Connection.is_closing/connection_lost/on_publish/on_subscribe/on_unsubscribe/authenticate/message_received (hpfeeds/broker/connection.py) -> coq/BrokerGen.v (regenerated on every run), with coq/PyBroker.v, its reading of the objects (a Connection = its index; self.server None / not in server.connections = one flag; sets and the subscriber list as lists; which metrics, log calls and attributes are skipped; where the ghost log of accepted actions is appended); each translated method is proved equal to the hand-written model in coq/BrokerGenEq.v and run_src = run in coq/BrokerGenRun.v; hand-written there: the frame loop of process_pending, BaseProtocol.message_received dispatch, Connection.on_auth, connection_made, transport callbacks, the deadline timer', 'FunctionalExtensionality.functional_extensionality_dep (Coq standard library) for the *_src_* theorems only']
 ASSUMPTIONS = B.ASSUMPTIONS + ['prometheus_client gauges/counters are read through collect(); the per-identity clause is checked by '
                                'the harness only (theorem covers the per-channel sums, the connection gauge and the counters)']
 ASPECTS = 'GF'
@@ -67,10 +68,115 @@ def gauge_oracle(case, d):
     return None
 
 
+def setup_fault_probe(rng):
+    """the real Server/Connection when connection_made itself fails part-way (a fault the Coq model does not have: its
+    do_connect never raises): the peer was reset between accept and the callback, so get_extra_info('peername') is None, or
+    setsockopt() raises OSError on the dead socket.  asyncio logs the exception and later reports the loss as usual.  After
+    every step: the connections gauge = the broker's own connection set = connections made and not yet lost; made - lost
+    counters agree; once everybody has gone every gauge is zero.  -> failure text or None"""
+    import asyncio
+    import broker
+    import hpfeeds.protocol as P
+    from vloop import VLoop
+    from hpfeeds.broker import prometheus
+    from hpfeeds.broker.server import Server
+    from hpfeeds.broker.connection import Connection
+
+    class DeadSock:
+        def setsockopt(self, *a):
+            raise OSError(9, 'Bad file descriptor')
+
+    class Half(broker.SimTransport):
+        fault = None
+
+        def get_extra_info(self, k, default=None):
+            if k == 'peername' and self.fault == 'peername':
+                return None
+            if k == 'socket' and self.fault == 'sockopt':
+                return DeadSock()
+            return broker.SimTransport.get_extra_info(self, k, default)
+    loop = VLoop()
+    asyncio.set_event_loop(loop)
+    try:
+        prometheus.reset()
+        table = {'ali': broker.mkrow('ali', (b's', [b'x'], [b'x', b'y']))}
+        srv = Server(auth=broker.FutStore(table, False, loop), name='hpfeeds')
+        n = rng.randint(2, 6)
+        conns = {}
+        alive = set()
+        steps = []
+        for q in range(n):
+            steps.append(('made', q, rng.choice([None, 'peername', 'sockopt', None])))
+        for q in range(n):
+            steps.append(('lost', q, None))
+        # keep per-connection order (made before lost), shuffle across connections
+        order = []
+        pools = {q: [s for s in steps if s[1] == q] for q in range(n)}
+        while any(pools.values()):
+            q = rng.choice([k for k, v in pools.items() if v])
+            order.append(pools[q].pop(0))
+
+        def gauges():
+            lost = sum(int(v) for nm, l, v in broker.samples(prometheus.CONNECTION_LOST) if not nm.endswith('_created'))
+            subs = {(l['ident'], l['chan']): int(v) for nm, l, v in broker.samples(prometheus.SUBSCRIPTIONS)}
+            return (int(prometheus.CLIENT_CONNECTIONS._value.get()), int(prometheus.CONNECTION_MADE._value.get()), lost, subs)
+        made = 0
+        for what, q, fault in order:
+            if what == 'made':
+                c = Connection(srv)
+                t = Half(q)
+                t.fault = fault
+                t.now = loop.time
+                conns[q] = (c, t, fault)
+                made += 1
+                alive.add(q)
+                try:
+                    loop.call(c.connection_made, t)
+                except Exception:      # asyncio's loop logs it (call_exception_handler) and carries on
+                    pass
+                if fault is None and rng.random() < 0.7:
+                    loop.call(c.data_received, P.msgauth(bytes(c.authrand), 'ali', 's'))
+                    loop.call(c.data_received, P.msgsubscribe('ali', rng.choice(['x', 'y'])))
+            else:
+                c, t, fault = conns[q]
+                alive.discard(q)
+                try:
+                    loop.call(c.connection_lost, None)
+                except Exception:
+                    pass
+            g_conn, g_made, g_lost, g_subs = gauges()
+            where = 'after %s of connection %d%s: ' % (what, q, (' (connection_made failed: %s)' % fault) if fault else '')
+            if g_conn != len(alive):
+                return where + 'client_connections gauge is %d but %d connection(s) are open' % (g_conn, len(alive))
+            if len(srv.connections) != len(alive):
+                return where + 'the broker lists %d connection(s) but %d are open' % (len(srv.connections), len(alive))
+            if g_made - g_lost != len(alive):
+                return where + 'connection_made - connection_lost = %d but %d connection(s) are open' % (g_made - g_lost, len(alive))
+        g_conn, g_made, g_lost, g_subs = gauges()
+        if g_conn != 0 or any(v != 0 for v in g_subs.values()):
+            return 'every client has gone but the gauges are not zero (connections %d, subscriptions %r)' % (g_conn, g_subs)
+        return None
+    finally:
+        loop.shutdown()
+        asyncio.set_event_loop(None)
+
+
 def run(ctx, res):
-    res.rule = RULE % ASPECTS
+    res.rule = RULE % ASPECTS + ('; plus a probe of the real broker with connections whose connection_made fails part-way (peer reset '
+                                 'before the callback: no peername / setsockopt raises; not in the model): gauges, counters and the '
+                                 'connection set agree after every step and return to zero')
+    if ctx.scale == 1:
+        for k in range(ctx.n(30, 400)):
+            p = setup_fault_probe(ctx.rng('sf%d' % k))
+            res.evaluations += 1
+            res.count('setup_fault_probe')
+            if p:
+                res.failures.append(dict(signature='C19: setup fault', what=p, case=dict(probe='setup_fault', k=k)))
+                break
     B.run(ctx, res, 'C19', ASPECTS, PLAN, extra_oracle=gauge_oracle)
 
 
 def replay(ctx, case):
+    if case.get('probe') == 'setup_fault':
+        return setup_fault_probe(ctx.rng('sf%d' % case['k']))
     return B.replay_case('C19', case, gauge_oracle)
